@@ -153,7 +153,7 @@ Qed.
 
 (* ---- worlds that differ only in status lists, the service table and bookkeeping --------------------- *)
 Definition same_res (W W' : world) : Prop :=
-  w_funcs W' = w_funcs W /\ w_next W' = w_next W /\ w_pending W' = w_pending W /\ w_zombie W' = w_zombie W /\
+  w_funcs W' = w_funcs W /\ w_next W <= w_next W' /\ w_pending W' = w_pending W /\ w_zombie W' = w_zombie W /\
   w_running W' = w_running W /\ l_state (w_led W') = l_state (w_led W) /\ l_event (w_led W') = l_event (w_led W) /\
   l_bus (w_led W') = l_bus (w_led W) /\ l_tasks (w_led W') = l_tasks (w_led W) /\ l_reap (w_led W') = l_reap (w_led W).
 
@@ -166,7 +166,12 @@ Lemma Inv_res W W' : Inv W -> same_res W W' ->
   Inv W'.
 Proof.
   intros [I [S L]] [EF [EN [EP [EZ [ER [ES [EE [EB [ET ERp]]]]]]]]] HST HAC HSV. split; [|split].
-  - apply (ids_ok_same W); [split; assumption|exact I].
+  - constructor; unfold owns; rewrite ?EF.
+    + pose proof (io_next W I). lia.
+    + intros f Hf. destruct (io_gen W I f Hf). split; lia.
+    + intros f u O. destruct (io_unit W I f u O) as [A [B C]]. repeat split; [exact A|exact B|lia].
+    + apply (io_uniq W I).
+    + apply (io_guniq W I).
   - constructor.
     + rewrite ER. intros id Hid. destruct (so_run W S id Hid) as [f [u [O [E [A D]]]]]. exists f, u.
       destruct (HST f u O (or_introl (eq_ind_r (fun x => In x _) Hid E)) A D) as [A' D'].
@@ -193,7 +198,7 @@ Proof. repeat split; reflexivity. Qed.
 Lemma same_res_trans A B C : same_res A B -> same_res B C -> same_res A C.
 Proof.
   intros [a1 [a2 [a3 [a4 [a5 [a6 [a7 [a8 [a9 a10]]]]]]]]] [b1 [b2 [b3 [b4 [b5 [b6 [b7 [b8 [b9 b10]]]]]]]]].
-  repeat split; congruence.
+  repeat split; try congruence; lia.
 Qed.
 
 (* the service table after Function.service_remove / service_register *)
@@ -210,6 +215,11 @@ Lemma svc_register_fields W f :
   w_log (svc_register W f) = w_log W /\ w_starting (svc_register W f) = w_starting W /\
   l_svc (w_led (svc_register W f)) = match f_svc f with Some _ => addn (f_gen f) (l_svc (w_led W)) | None => l_svc (w_led W) end.
 Proof. unfold svc_register. destruct (f_svc f) as [n|]; repeat split; reflexivity. Qed.
+
+Lemma svc_remove_next W f : w_next (svc_remove W f) = w_next W.
+Proof. unfold svc_remove. destruct (f_svc f); [cbv zeta; destruct (Nat.eqb _ 0)|]; reflexivity. Qed.
+Lemma svc_register_next W f : w_next (svc_register W f) = w_next W.
+Proof. unfold svc_register. destruct (f_svc f); reflexivity. Qed.
 
 Lemma not_in_map_id us (x : N) : ~ In x (map u_id us) -> forall u, In u us -> u_id u <> x.
 Proof. intros H u Hu C. apply H. apply in_map_iff. exists u. split; assumption. Qed.
@@ -274,7 +284,7 @@ Proof.
       * intros g. wsimpl. rewrite SA. apply In_deln.
       * intros g Hg. wsimpl. rewrite SD in Hg. apply In_deln in Hg. tauto.
       * intros g Hg. wsimpl. rewrite SV in Hg. apply (svc_removed_ok W1 f H1 Hf1 g Hg).
-    + destruct SR as [F2 [N2 _]]. unfold fstop_post, same_tables. wsimpl. repeat split; try congruence.
+    + destruct SR as [F2 _]. pose proof (svc_remove_next W1 f) as N2. fold W2 in N2. unfold fstop_post, same_tables. wsimpl. repeat split; try congruence.
       * apply In_deln in H. rewrite SA, A1 in H. tauto.
       * apply In_deln in H. tauto.
       * intros x Hx NE. apply In_deln. rewrite SA, A1. split; assumption.
@@ -307,6 +317,7 @@ Proof.
       - destruct (R1 _ C) as [_ X]. apply X. apply in_map. exact Hu.
       - destruct (P1 _ C) as [_ X]. apply X. apply in_map. exact Hu. }
     set (W2 := if memn (f_gen f) (l_svc (w_led W1)) then svc_remove W1 f else W1).
+    assert (N2 : w_next W2 = w_next W1) by (unfold W2; destruct (memn (f_gen f) (l_svc (w_led W1))); [apply svc_remove_next|reflexivity]).
     assert (X : same_res W1 W2 /\ w_active W2 = w_active W1 /\ w_delayed W2 = w_delayed W1 /\
                 forall g, In g (l_svc (w_led W2)) -> In g (l_svc (w_led W1)) /\ g <> f_gen f).
     { unfold W2. destruct (memn (f_gen f) (l_svc (w_led W1))) eqn:M.
@@ -321,7 +332,7 @@ Proof.
       * intros g. wsimpl. rewrite SA. apply In_deln.
       * intros g Hg. wsimpl. rewrite SD in Hg. exact Hg.
       * intros g Hg. wsimpl. apply SV. exact Hg.
-    + destruct SR as [F2 [N2 _]]. unfold fstop_post, same_tables. wsimpl. repeat split; try congruence.
+    + destruct SR as [F2 _]. unfold fstop_post, same_tables. wsimpl. repeat split; try congruence.
       * apply In_deln in H. rewrite SA, A1 in H. tauto.
       * apply In_deln in H. tauto.
       * intros x Hx NE. apply In_deln. rewrite SA, A1. split; assumption.
@@ -480,16 +491,16 @@ Proof.
   assert (Hf1 : In f (w_funcs W1)) by (rewrite T1; exact Hf).
   destruct (svc_refused W1 f).
   - (* refused: what was started is stopped, the manager is INVALID *)
-    destruct (fold_stop_units (dec_unit_stop cfg) f) with (us := us) (W := W1) as [H2 [[T3 T4] [A2 [D2 [R2 [P2 [V2 K2]]]]]]].
-    + intros V u0 HV O0. apply (dec_unit_stop_inv cfg V f u0 AO HV O0 NF).
+    destruct (fold_stop_units (stop_if_running cfg) f) with (us := f_units f) (W := W1) as [H2 [[T3 T4] [A2 [D2 [R2 [P2 [V2 K2]]]]]]].
+    + intros V u0 HV O0. apply (stop_if_running_inv cfg V f u0 AO HV O0 NF).
     + exact H1.
-    + intros u Hu. split; [exact Hf1|apply HU; exact Hu].
-    + set (W2 := fold_left (dec_unit_stop cfg) us W1) in *. cbv zeta.
+    + intros u Hu. split; [exact Hf1|exact Hu].
+    + set (W2 := fold_left (stop_if_running cfg) (f_units f) W1) in *. cbv zeta.
       assert (Hf2 : In f (w_funcs W2)) by (rewrite T3; exact Hf1).
       assert (NU : forall u, In u (f_units f) -> ~ In (u_id u) (w_running W2) /\ ~ In (u_id u) (w_pending W2)).
-      { intros u Hu. destruct (delayed_units_idle W f HI Hf CD u Hu) as [NR NP]. split; intros C.
-        - destruct (R2 _ C) as [C1 C2]. apply R1 in C1. destruct C1 as [C1|C1]; [exact (NR C1)|exact (C2 C1)].
-        - destruct (P2 _ C) as [C1 _]. rewrite P1 in C1. exact (NP C1). }
+      { intros u Hu. split; intros C.
+        - destruct (R2 _ C) as [_ X]. apply X. apply in_map. exact Hu.
+        - destruct (P2 _ C) as [_ X]. apply X. apply in_map. exact Hu. }
       split; [|split; [split; wsimpl; [rewrite T3, T1|rewrite T4, T2]; reflexivity|]].
       * apply (deactivate_inv W2 _ f H2 Hf2 NU); wsimpl.
         -- repeat split; reflexivity.
@@ -511,7 +522,7 @@ Proof.
         split; [rewrite A1; exact CA|]. exists f. repeat split; try assumption.
         -- rewrite SVN. reflexivity.
         -- intros _. rewrite D1. exact ND0.
-    + destruct SR as [F2 [N2 _]]. split; wsimpl; [rewrite F2, T1|rewrite N2, T2]; reflexivity.
+    + destruct SR as [F2 _]. pose proof (svc_register_next W1 f) as N2. fold W2 in N2. split; wsimpl; [rewrite F2, T1|rewrite N2, T2]; reflexivity.
     + intros x Hx. wsimpl. rewrite SA, A1 in Hx. exact Hx.
 Qed.
 
@@ -638,7 +649,12 @@ Proof.
       + exact KT.
       + intros g Hg. destruct (KV g Hg) as [A [f' [Hf' X]]]. split; [exact A|]. exists f'. split; [apply in_or_app; left; exact Hf'|exact X]. }
   cbv zeta. fold gen. fold units. fold f. fold Wf.
-  destruct (negb newsys && svc_refused Wf f); [exact HF|].
+  destruct (negb newsys && svc_refused Wf f).
+  { (* refused legacy definition: only the id counter moves *)
+    apply (Inv_res W _ HI); wsimpl; [repeat split; try reflexivity; cbn [set_next w_next]; lia| | |].
+    - intros f' u' O' _ A D. auto.
+    - apply (so_act W S).
+    - apply (ok_svc W L). }
   assert (Hff : In f (w_funcs Wf)) by (cbn; apply in_or_app; right; left; reflexivity).
   assert (OLD : forall g, In g (w_active Wf) -> g <> gen).
   { intros g H ->. cbn [Wf w_active] in H.
